@@ -25,7 +25,7 @@ ASSUMPTIONS = [
     'fixture parser modules stand for "arbitrary well-behaved, raising, None-returning" parsers',
     'import caches are cleared and plugin modules unloaded before each observation, so every consultation is a first one '
     '(histories are C19)',
-    'hex words beyond the valid word count may be passed as zeros or as stored',
+    'hex words beyond the valid word count may be passed as zeros or as stored (one or the other for all of them)',
     'the stand-alone I/O drawer decoders are the oracle for which decoder the plug-in used (their own output is C14-C16)',
 ]
 MAX_PROCS = 16
@@ -153,7 +153,9 @@ def _src(rng, it):
     ref = it['ref'] + '8D' + comp2 + '10' if it['ref'] != 'ZZ' else 'ZZ12' + comp2 + '10'
     s = genpel.gen_src(rng, 'PS', ncallouts=-1)
     s['ascii'] = encode.text(ref + rng.choice(['', '        ABCD']), 32, 0x20)
-    s['wc'] = rng.choice([9, 9, 5, 2])
+    # from no valid word at all to all eight (word 2 selects the fixture's behaviour: counts that leave it out go
+    # with behaviour 0 only, so that either reading of "beyond the count" selects the same behaviour)
+    s['wc'] = rng.choice([9, 9, 5, 2, 8] + ([1, 0, 0] if it['beh'] == '0' else []))
     s['words'] = [genpel.rbytes(rng, 4) for _ in range(8)]
     s['words'][0][3] = (s['words'][0][3] & 0xF0) | int(it['beh'])
     pel = genpel.gen_pel(rng, kinds=[], creator=creator)
